@@ -181,12 +181,52 @@ def evaluate(case, which, need):
                 call_args, argnum = (vals[0],), 0
             else:
                 call_args, argnum = tuple(vals), (which[0] if len(which) == 1 else tuple(which))
+            if "nest" in need:
+                out["nest"] = _nested_primals(A, f_ag, argnum, call_args, x)
             if "rev" in need:
                 out["rev"] = _reverse(A, f_ag, argnum, call_args, x)
             if "fwd" in need:
                 out["fwd"] = _forward(A, f_ag, argnum, call_args, x)
     out["inputs_unchanged"] = snapshot == [v.tobytes() if isinstance(v, onp.ndarray) else repr(v) for v in vals]
     return out
+
+
+def _nested_primals(A, f_ag, argnum, call_args, x):
+    """Primal values handed back at nesting depth 2 and by value_and_grad / grad_and_aux (C06)."""
+    ag, anp, vspace = A["autograd"], A["anp"], A["vspace"]
+    r = {}
+
+    def attempt(key, thunk):
+        try:
+            r[key] = thunk()
+        except Skip:
+            raise
+        except Exception as e:
+            r[key] = ("EXC", type(e).__name__, str(e)[:100])
+
+    attempt("depth2-rev-in-rev", lambda: ag.make_vjp(lambda *a: ag.make_vjp(f_ag, argnum)(*a)[1], argnum)(*call_args)[1])
+    attempt("depth2-fwd-in-rev", lambda: ag.make_vjp(lambda *a: ag.make_jvp(f_ag, argnum)(*a)(vspace(x).zeros())[0], argnum)(*call_args)[1])
+    attempt("depth2-rev-in-fwd", lambda: ag.make_jvp(lambda *a: ag.make_vjp(f_ag, argnum)(*a)[1], argnum)(*call_args)(vspace(x).zeros())[0])
+
+    def scalarised(*a):
+        o = f_ag(*a)
+        return anp.sum(anp.real(o * 1.0)) if not isinstance(o, (tuple, list, dict)) and not _is_container_box(o) else None
+
+    def vag():
+        v = ag.value_and_grad(lambda *a: scalarised(*a), argnum)(*call_args)[0]
+        return v
+
+    def aux():
+        return ag.grad_and_aux(lambda *a: (scalarised(*a), f_ag(*a)), argnum)(*call_args)[1]
+
+    attempt("value_and_grad", vag)
+    attempt("grad_and_aux", aux)
+    return r
+
+
+def _is_container_box(o):
+    v = getattr(o, "_value", None)
+    return isinstance(v, (tuple, list, dict))
 
 
 def _reverse(A, f_ag, argnum, call_args, x):
